@@ -97,7 +97,7 @@ macro_rules! c03_beta {
 //@ besteffort: yes
 //@ prop: C03
 //@ tier: thorough
-//@ cap: 3600
+//@ cap: 1500
 //@ funcs: Beta::<f64>::new; Beta::<f64>::sample (Cheng BB and BC trial, w == inf guard, reflection)
 //@ bounds: alpha, beta in [1e-3, 1e4]; first trial (2 words)
 //@ assumes: libm::{log,exp,sqrt} by contract
@@ -106,7 +106,7 @@ c03_beta!(c03_beta_f64, f64, 1e-3);
 //@ besteffort: yes
 //@ prop: C03
 //@ tier: thorough
-//@ cap: 1800
+//@ cap: 1500
 //@ funcs: Beta::<f32>::new; Beta::<f32>::sample
 //@ bounds: alpha, beta in [1e-2, 1e4]; first trial (2 words), all 2^23 values of each Open01 draw
 //@ assumes: libm::{logf,expf,sqrtf} by contract
